@@ -173,6 +173,10 @@ def c04_corpus(seed, tier):
             ops.append({"op": "next_u32", "g": 1, "n": n})
             left -= n
         S.case("XorShiftRng random %d" % r, ops, weight=K)
+    for r in range(2):          # runs past 256, 512, 1024 ... outputs of one generator (narrow internal counters)
+        sd = [rng.getrandbits(8) for _ in range(16)]
+        ops = [{"op": "from_seed", "g": 1, "kind": kind, "seed": sd}] + [{"op": "next_u32", "g": 1, "n": 75} for _ in range(16 if tier == "quick" else 60)]
+        S.case("XorShiftRng long run %d" % r, ops, weight=1300)
     return S
 
 
@@ -443,8 +447,11 @@ def c12_corpus(seed, tier):
                 t = (t + D) & M64
                 rd += [a, t, (t + 1) & M64]
             g = k + 1
-            ops += [{"op": "timer", "t": g, "readings": [u64(x) for x in rd], "cont": CONT}, {"op": "jit_new", "g": g, "t": g},
-                    {"op": "set_rounds", "g": g, "r": rounds}, {"op": "next_u64", "g": g}]
+            # every third instance takes its values through fill_bytes(24): three collections inside one call, each with a
+            # stuck-test history of its own
+            call = {"op": "fill_bytes", "g": g, "n": 24} if (lo + k) % 3 == 2 else {"op": "next_u64", "g": g}
+            ops += [{"op": "timer", "t": g, "readings": [u64(x) for x in rd + ([rd[-1] + 19 * (j + 1) + (j * j) % 7 for j in range(40)] if call["op"] == "fill_bytes" else [])], "cont": CONT},
+                    {"op": "jit_new", "g": g, "t": g}, {"op": "set_rounds", "g": g, "r": rounds}, call]
         S.case("jitter delta sequences %d.." % lo, ops, weight=chunk * 12)
     # long runs of consecutive stuck measurements (a standing clock, a clock ticking in equal steps) in the middle of
     # a collection: a stuck measurement is repeated however often it takes - no retry limit, no narrow retry counter
@@ -452,6 +459,11 @@ def c12_corpus(seed, tier):
     for r in (1, 127, 128, 254, 255):       # the extreme round counts (u8)
         stuck_run_cases(S, rng, (3,), r)
     zero_reading_cases(S, rng)
+    # a scripted generator made after the platform-timer constructor ran in the same process (its cached rounds are its own business)
+    sc = jitter_script(rng, [("random", 700)])
+    S.case("jitter scripted generator after JitterRng::new()",
+           [{"op": "jit_std_new"}, {"op": "timer", "t": 1, "readings": [u64(x) for x in sc], "cont": CONT}, {"op": "jit_new", "g": 1, "t": 1},
+            {"op": "next_u64", "g": 1}, {"op": "jit_std_new"}, {"op": "next_u32", "g": 1}, {"op": "next_u32", "g": 1}], weight=300)
     # the one documented panic
     sc = jitter_script(rng, [("random", 100)])
     S.case("jitter set_rounds(0)", [{"op": "timer", "t": 1, "readings": [u64(x) for x in sc], "cont": CONT},
@@ -817,6 +829,33 @@ def c13_corpus(seed, tier, cases):
                 rd += [time, (time + 1) & M64, (time + 2) & M64, time2]
                 t = time2
             add("tt sum of delta variations = 300*%d + %d" % (m, f), rd)
+    # every probe is fine in itself but the clock steps BACK between probes (each probe starts from the same base, or from
+    # a base that decreases): no condition on the probes holds, so Ok
+    for name, basef in (("same base", lambda j, b: b), ("decreasing base", lambda j, b: b - 1000 * j), ("saw-tooth base", lambda j, b: b + 5000 * (j % 7))):
+        b0 = rng.getrandbits(40) + (1 << 30)
+        rd = [b0]
+        for j in range(1, 401):
+            time = basef(j, b0) & M64
+            d = 1000 + 37 * (j % 5) + (j * j) % 23 + (20 if j % 2 else 0)
+            rd += [time, (time + 1) & M64, (time + 2) & M64, (time + d) & M64]
+        add("tt healthy probes, %s" % name, rd)
+    # test_timer called twice on one generator (and on a clone of it): the second verdict is about the readings of the
+    # second run - a clock that was fine and is now dead (zeros), or coarse (steps of 100)
+    for bad in ("zeros", "steps of 100"):
+        t = rng.getrandbits(40) + (1 << 20)
+        rd = [t]
+        for j in range(1, 401):
+            d = 1000 + 37 * (j % 5) + (j * j) % 23 + (20 if j % 2 else 0)
+            time = t + 977
+            rd += [time, time + 1, time + 2, time + d]
+            t = time + d
+        good_len = len(rd)
+        for j in range(1, 1700):
+            t = 0 if bad == "zeros" else t + 100 * (1 + j % 3)
+            rd.append(t)
+        S.case("tt twice: a healthy clock, then %s" % bad,
+               [{"op": "timer", "t": 1, "readings": [u64(x) for x in rd], "cont": [u64(0)] if bad == "zeros" else [u64(100)]}, {"op": "jit_new", "g": 1, "t": 1},
+                {"op": "test_timer", "g": 1}, {"op": "clone", "g": 1, "to": 2}, {"op": "test_timer", "g": 1}, {"op": "test_timer", "g": 2}], weight=1400)
     # seeded random timers
     for i in range(6 if tier == "quick" else 500):
         style = rng.choice(["jit", "coarse", "const", "lin", "wild"])
@@ -927,6 +966,26 @@ def c15_schedule(seed, tier):
         for which, v in (("a", a), ("b", b), ("ab", a ^ b)):
             foldh(["aff", "lh", k, which], v, C)
             foldh(["aff", "th", k, which], P0, v)
+    # test_timer also stirs the pool (400 probes): for fixed readings it is a bijection of the pool as well - whether
+    # it returns Ok ("tp": a healthy clock) or gives up early ("tf": a zero reading at the fifth probe)
+    S.tt_readings = {}
+    for kindt in ("tp", "tf"):
+        seg_at = len(readings)
+        tt = rng.getrandbits(40) + (1 << 20)
+        seg = [tt]
+        for j in range(1, 401):
+            d = 1000 + 37 * (j % 5) + (j * j) % 23 + (20 if j % 2 else 0)
+            time = tt + 977
+            seg += [0 if (kindt == "tf" and j == 5) else time, time + 1, time + 2, time + d]
+            tt = time + d
+        readings.extend(seg)
+        S.tt_readings[kindt] = seg
+        for i in range(-1, 64):
+            ops += [{"op": "seek", "g": 1, "pos": seg_at}, {"op": "set_pool", "g": 1, "pool": u64(0 if i < 0 else 1 << i)}, {"op": "test_timer", "g": 1, "tag": [kindt, i]}]
+        for k in range(6):
+            a, b = rng.getrandbits(64), rng.getrandbits(64)
+            for which, v in (("a", a), ("b", b), ("ab", a ^ b)):
+                ops += [{"op": "seek", "g": 1, "pos": seg_at}, {"op": "set_pool", "g": 1, "pool": u64(v)}, {"op": "test_timer", "g": 1, "tag": ["aff", kindt, k, which]}]
     head = [{"op": "timer", "t": 1, "readings": [u64(x) for x in readings], "cont": [u64(1009)]},
             {"op": "jit_new", "g": 1, "t": 1}]
     S.case("pool map extraction", head + ops)
@@ -1440,6 +1499,9 @@ def c10_perturbed(images, rng):
     for kind, img in images.items():
         wb = 4 if kind == "IsaacCore" else 8
         fields = {"mem[0]": 0, "mem[255]": 255 * wb, "a": 256 * wb, "b": 257 * wb, "c": 258 * wb, "mem[128] high byte": 128 * wb + wb - 1}
+        if len(img) != 259 * wb:
+            # the core is serialized in another layout than mem[256], a, b, c: perturb what there is (first, middle, last byte)
+            fields = {"first byte": 0, "a middle byte": len(img) // 2, "last byte": len(img) - 1}
         for name, off in fields.items():
             im2 = list(img)
             im2[off] ^= 0x01 if "high" not in name else 0x80
